@@ -3,6 +3,7 @@ import Driver.AgentCause
 import Driver.Wait
 import Driver.Bridge
 import Driver.Sizing
+import Driver.Descr
 open Lean
 
 /-- line protocol: one JSON op per input line, one canonical JSON answer per line -/
@@ -21,5 +22,6 @@ def main (args : List String) : IO UInt32 := do
   | ["wait"] => loop stdin Driver.Wait.handle; return 0
   | ["bridge"] => loop stdin Driver.Bridge.handle; return 0
   | ["sizing"] => loop stdin Driver.Sizing.handle; return 0
+  | ["descr"] => loop stdin Driver.Descr.handle; return 0
   | ["cause"] => loop stdin Driver.AgentCause.handle; return 0
   | _ => IO.eprintln "usage: rpmodel <suite>"; return 2
